@@ -8,6 +8,7 @@
 Everything numerical (range, monotonicity, identities, inverse relation, accuracy) is NOT decided.
 """
 import math
+import re
 from .facts import kids, strip, walk, is_call, render, local_inits, AnalysisBroken
 from . import e1
 
@@ -74,7 +75,36 @@ def _d1(chk, fb):
             if g.key in src and g.key != c["callee"]["key"]:
                 guard = render(g.nodes[src[g.key][2]["cond"]]) if src[g.key][2]["k"] == "IfStmt" else ""
                 argn = [render(a) for a in g.args(c)]
-                if argn and any(a and ("(%s <" % a in guard or "(%s >" % a in guard) for a in argn[:1]):
+                # ... and that guard rejects everything the callee answers with its sentinel: the callee's own entry guards,
+                # constant-folded at the end points of the interval the caller's guard admits (the constants the argument is
+                # compared with there) and at its middle, never reach the error signal.  (Sentinel regions of these functions
+                # are tails of the argument's range: not firing at both ends and in the middle is taken as not firing between.)
+                covers = None
+                if argn and src[c["callee"]["key"]][2]["k"] == "IfStmt" and src[g.key][2]["k"] == "IfStmt":
+                    a0 = argn[0]
+                    consts = []
+                    for x in walk(g.nodes[src[g.key][2]["cond"]]):
+                        if x["k"] == "BinaryOperator" and x.get("op") in ("<", "<=", ">", ">="):
+                            l_, r_ = strip(kids(x)[0]), strip(kids(x)[1])
+                            if render(l_) == a0:
+                                v_ = _try(g, r_, {})
+                            elif render(r_) == a0:
+                                v_ = _try(g, l_, {})
+                            else:
+                                v_ = None
+                            if isinstance(v_, float):
+                                consts.append(v_)
+                    if len(consts) >= 2:
+                        pts = [min(consts), max(consts), (min(consts) + max(consts)) / 2.0]
+                        res_ = []
+                        for v_ in pts:
+                            env = {p_["id"]: (v_ if k_ == 0 else None) for k_, p_ in enumerate(sf.params)}
+                            res_.append(_walk_entry(sf, env)[0])
+                        covers = True if all(r_ == "passes" for r_ in res_) else (False if "signal" in res_ else None)
+                if covers is None and argn and any(a and ("(%s <" % a in guard or "(%s >" % a in guard) for a in argn[:1]):
+                    chk.unknown("D1", g.key, "argument-prevalidated:" + sf.name, g.loc(c), "whether the caller's entry guard (%s) excludes every argument for which %s signals is not decided" % (guard[:60], sf.name))
+                    continue
+                if covers and argn and any(a and ("(%s <" % a in guard or "(%s >" % a in guard) for a in argn[:1]):
                     chk.proved("D1", g.key, "argument-prevalidated:" + sf.name, g.loc(c), "'%s' is restricted by the caller's own entry guard (%s)" % (argn[0], guard[:60]))
                     continue
             # how is the result used?
@@ -316,9 +346,63 @@ def _d2(chk, fb):
     chk.floor("D2", "out-of-domain witnesses", n, 15)
 
 
+def _d3(chk, fb):
+    """the error signal does not depend on the other arguments: in the entry section of a function that signals out-of-domain
+    arguments, no ordinary early return ('if (x == 0) return 0;') comes before a guard that signals on a DIFFERENT parameter -
+    otherwise the invalid value of that parameter is answered with a plausible number whenever the first test happens to hold"""
+    n = 0
+    for key in sorted(WITNESS):
+        name, np_ = key.split("/")
+        fs = [f for f in fb.q(RT + "::" + name) if len(f.params) == int(np_)]
+        if len(fs) != 1:
+            continue
+        f = fs[0]
+        top = kids(f.body)
+        guards = [i for i, st in enumerate(top) if st["k"] == "IfStmt" and _is_signal(f, st)]
+        if not guards:
+            continue
+        pn = {p_["name"] for p_ in f.params}
+
+        inits_ = local_inits(f)
+
+        def mentions(node, depth=0):
+            out = set()
+            for x in walk(node):
+                if x["k"] == "DeclRefExpr" and x["decl"]["name"] in pn and x["decl"].get("kind") == "param":
+                    out.add(x["decl"]["name"])
+                elif x["k"] == "DeclRefExpr" and x["decl"]["id"] in inits_ and depth < 3:
+                    out |= mentions(inits_[x["decl"]["id"]], depth + 1)       # 'double p = alpha;'
+            return out
+        for i, st in enumerate(top[:guards[-1]]):
+            if st["k"] != "IfStmt" or i in guards:
+                continue
+            b = strip(f.nodes[st["then"]])
+            if not any(x["k"] == "ReturnStmt" for x in walk(b)):
+                continue
+            early = mentions(f.nodes[st["cond"]])
+            later = [top[j] for j in guards if j > i]
+            for gst in later:
+                n += 1
+                gp = mentions(f.nodes[gst["cond"]])
+                con = "signal-before-shortcut:%s" % ",".join(sorted(gp - early))
+                if gp - early:
+                    chk.refuted("D3", f.key, con, f.loc(st),
+                                "%s returns early under '%s' before it has tested %s (%s): for such a call an out-of-domain %s is answered with an ordinary value instead of the error signal" % (
+                                    name, render(f.nodes[st["cond"]])[:50], sorted(gp - early), render(f.nodes[gst["cond"]])[:60], sorted(gp - early)[0]),
+                                witness={"input": "%s with %s making the early test true and %s out of its domain" % (name, sorted(early), sorted(gp - early))})
+                else:
+                    chk.proved("D3", f.key, con, f.loc(st), "the early return and the later guard test the same parameter(s)")
+        if not any(s_["rule"] == "D3" and s_["function"] == f.key for s_ in chk.sites):
+            n += 1
+            chk.proved("D3", f.key, "signal-before-shortcut", f.loc(top[guards[0]]), "no ordinary early return precedes an error guard")
+    chk.floor("D3", "signalling functions examined", n, 4)
+
+
 def run(chk, fb, tier):
     chk.rule("D1", "the result of a sentinel-returning RandomTools function is returned unchanged, or held in a variable that is tested against the sentinel before any arithmetic on it")
     chk.rule("D2", "documented out-of-domain constants propagated through the entry statements of qNorm, qChisq, incompleteGamma, pGamma, incompleteBeta reach 'return <sentinel>' or throw")
     _d1(chk, fb)
     _d2(chk, fb)
+    chk.rule("D3", "in the entry section of a signalling function no ordinary early return precedes a guard that signals on a different parameter")
+    _d3(chk, fb)
     chk.assume("the sentinel of qNorm for the upper end (qNorm(1) = -9999, the lower-tail sentinel) is noted, not asserted")
